@@ -46,7 +46,7 @@ pub fn spec_damaged(d: &mut Driver, img: &[u8]) -> Option<Vec<Option<Vec<(Vec<u8
 // ------------------------------------------------------------------------------------------- C06
 pub fn c06(ctx: &Ctx) -> Report {
     let base = Report::new("C06", "files written by the harness's reference encoder with free layout choices (random restart subsets containing 0, shared-prefix lengths 0..maximal, separators anywhere in [last key, next first key) incl. the last key itself, per-block none/snappy with literal-only or copy elements, gaps between blocks, filter base 2^8..2^14, no / foreign-named filter, extra metaindex keys, both comparators); each file is used only after the independent Lean decoder accepted it and decoded exactly the intended entries (so it is well-formed by the Spec); then opened, scanned, probed with get and seek (C02 probe set) through the real reader and the model; non-trivial = >= 2 entries; distinct by image");
-    let n = per_thread(ctx, 1500, 30000);
+    let n = per_thread(ctx, 5000, 60000);
     parallel(&ctx.driver, ctx.threads, ctx.seed, base, |t, d, rng, rep| {
         if t == 0 {
             s2_codec(d, rep, rng, 60);
@@ -246,7 +246,7 @@ pub fn data_end_of(d: &mut Driver, img: &[u8]) -> usize {
 }
 pub fn c07(ctx: &Ctx) -> Report {
     let base = Report::new("C07", "for each table of a family (compressed and not, one and many blocks / filters, random configurations): every byte offset of the file x XOR masks {01,10,80,ff} and zero / ff fill (quick: every offset of small tables, sampled offsets beyond 400 bytes), plus zeroed / randomised aligned ranges of 4..64 bytes; the altered file is opened, scanned, every stored key and one absent key per stored key looked up through the real reader and the model; judge (against the independent decoder's view of which blocks of the altered file still verify): open fails only if something other than data blocks was touched; scan = in-order selection of original entries containing every entry of every intact block; stored key -> original value or error; absent key -> never a value; non-trivial = alteration that changes the file; distinct by (image, alteration)");
-    let n = per_thread(ctx, 24, 400);
+    let n = per_thread(ctx, 64, 800);
     parallel(&ctx.driver, ctx.threads, ctx.seed, base, |t, d, rng, rep| {
         if t == 0 {
             s3_crc(d, rep, rng, 100);
@@ -352,7 +352,7 @@ fn c08_session(d: &mut Driver, rep: &mut Report, rng: &mut Rng, img: &[u8], size
 }
 pub fn c08(ctx: &Ctx) -> Report {
     let base = Report::new("C08", "byte strings presented as tables: every prefix length of valid tables; every single-byte alteration at sampled offsets (all 255 alternatives inside the 48 footer bytes in the thorough tier, 24 per footer byte quick); zero / garbage range fills; appended garbage; wrong declared size (smaller, larger); short arbitrary strings (0..64 bytes over small alphabets, random beyond); and files from the reference encoder whose block / filter / index-value contents were damaged BEFORE checksumming (valid checksums over malformed contents); each is opened and driven through scan, seek, prev, get, approx_offset_of on the real reader (in-process, unwinds caught; an abort kills the run and is reported with the last case) and on the model (whose fuel exhaustion = hang); judge: no panic, no hang; non-trivial = every case; distinct by (image, size, ops)");
-    let n = per_thread(ctx, 260, 6000);
+    let n = per_thread(ctx, 800, 12000);
     parallel(&ctx.driver, ctx.threads, ctx.seed, base, |t, d, rng, rep| {
         let progress = format!("/verif/.cache/c08-progress-{}.txt", t);
         if t == 0 {
@@ -495,7 +495,7 @@ fn results_only(out: &[String]) -> Vec<String> {
 }
 pub fn c10(ctx: &Ctx) -> Report {
     let base = Report::new("C10", "1..3 tables (random configurations; byte-identical images and two handles on one image included) sharing one block cache of capacity 1..#blocks+1, 1..4 clients (iterators and lookups) whose steps (next, prev, seek, get, approx) are interleaved at random, table handles dropped while their iterators continue; compared op by op with the model (results, read_at log, hit/miss events, cache count); judge: every op result equals the same session with capacity 10000 (private unbounded cache); count <= capacity after every op; cache ids of distinct opens differ; hit/miss events equal those of the Spec LRU fed with the access sequence, a miss reads the block exactly once, a hit reads nothing; thorough adds all interleavings of two 4-step clients; non-trivial = session with >= 2 clients or capacity < #blocks; distinct by request");
-    let n = per_thread(ctx, 700, 12000);
+    let n = per_thread(ctx, 3000, 40000);
     parallel(&ctx.driver, ctx.threads, ctx.seed, base, |t, d, rng, rep| {
         for i in 0..n {
             // tables
@@ -712,7 +712,7 @@ pub fn c10(ctx: &Ctx) -> Report {
 // ------------------------------------------------------------------------------------------- C14
 pub fn c14(ctx: &Ctx) -> Report {
     let base = Report::new("C14", "scenario per table: open; full scan; lookups of all keys; seeks; then the fault schedule is cleared and scan + lookups are repeated. A fault (IOError / short by 1 / short to half / short to 0) is injected at the i-th read_at call for every i of the fault-free run (quick: every i for small scenarios, sampled i beyond 40 calls), at pairs (i,j), on every call within a window, and permanently from call i on; compared op by op with the model (results, read log, events, cache count); judge: open and lookups give the correct answer or an error; a scan yields in order only original entries and omits only whole blocks (block partition from the independent decoder); after the faults stop every operation returns the fully correct result (nothing read during a failure was cached); the deep-recursion clause is covered by witness D15 (150000 consecutive failing blocks in a child process); non-trivial = every faulted run; distinct by request");
-    let n = per_thread(ctx, 40, 800);
+    let n = per_thread(ctx, 120, 1600);
     parallel(&ctx.driver, ctx.threads, ctx.seed, base, |t, d, rng, rep| {
         for i in 0..n {
             let mut cfg = gen_wcfg(rng);
